@@ -36,6 +36,9 @@ type c04op struct {
 func (o c04op) String() string {
 	switch o.K {
 	case "mouse":
+		if o.Flags == 8 {
+			return "EnableMouse(MouseFlags(0))"
+		}
 		return fmt.Sprintf("EnableMouse(%d)", o.Flags)
 	case "paste", "focus":
 		return fmt.Sprintf("%s(%v)", o.K, o.On)
@@ -77,7 +80,7 @@ func c04gen(rg *rand.Rand) []c04op {
 		}
 		switch k := rg.IntN(100); {
 		case k < 12:
-			ops = append(ops, c04op{K: "mouse", Flags: rg.IntN(8)})
+			ops = append(ops, c04op{K: "mouse", Flags: rg.IntN(9)}) // 0: no argument (everything), 8: the explicit empty set MouseFlags(0)
 		case k < 16:
 			ops = append(ops, c04op{K: "nomouse"})
 		case k < 24:
@@ -354,10 +357,16 @@ func c04exec(cfg c04cfg, ops []c04op, edges map[string]int) (cat, what string) {
 					fl = append(fl, tcell.MouseFlags(1<<b))
 				}
 			}
+			if o.Flags == 8 {
+				fl = []tcell.MouseFlags{0}
+			}
 			ok = app(func() { s.EnableMouse(fl...) })
 			mouse = o.Flags
 			if len(fl) == 0 {
 				mouse = 7
+			}
+			if o.Flags == 8 {
+				mouse = 0 // an explicit empty flag set asks for no reports
 			}
 		case "nomouse":
 			ok = app(func() { s.DisableMouse() })
@@ -486,16 +495,23 @@ func c04exec(cfg c04cfg, ops []c04op, edges map[string]int) (cat, what string) {
 }
 
 func C04(r *core.Run) {
-	r.Rule = "seeded histories of EnableMouse(flag sets)/DisableMouse/EnablePaste/DisablePaste/EnableFocus/DisableFocus/SetCursorStyle/SetTitle/ShowCursor/SetContent/Show/Suspend/Resume ending in Fini or Suspend, on a real terminfo screen over the instrumented fake tty; the reference terminal interprets every byte; at the return of every Suspend and of Fini its registers are compared with the reset vector, after every Resume with the application's enabled modes; the fake tty's call-order automaton runs on every call. Configurations: all 45 ECMA-48-family entries x TCELL_ALTSCREEN {unset, disable} x both Drain personalities. non-trivial = a history with at least one Suspend->Resume cycle or mode change before shutdown; distinct = distinct (configuration, history)."
+	r.Rule = "seeded histories of EnableMouse(flag sets, none, the explicit empty set)/DisableMouse/EnablePaste/DisablePaste/EnableFocus/DisableFocus/SetCursorStyle/SetTitle/ShowCursor/SetContent/Show/Suspend/Resume ending in Fini or Suspend, on a real terminfo screen over the instrumented fake tty; the reference terminal interprets every byte; at the return of every Suspend and of Fini its registers are compared with the reset vector, after every Resume with the application's enabled modes; the fake tty's call-order automaton runs on every call. Configurations: all 45 ECMA-48-family entries x TCELL_ALTSCREEN {unset, disable, one other value (Disable, DISABLE, enable, disabled by seed)} x both Drain personalities. non-trivial = a history with at least one Suspend->Resume cycle or mode change before shutdown; distinct = distinct (configuration, history)."
 	r.Assumptions = []string{"only capabilities the entry has are demanded", "the hyperlink register is not part of the reset vector (the statement lists colours and attributes)", "colours set by a non-39;49 'op' string count as default", "between Suspend and Resume the application only issues mode requests"}
 	nh := r.Pick(60, 1500)
 	var mu sync.Mutex
 	edges := map[string]int{}
 	seenCat := map[string]int{}
 	var hangs int32
-	for _, altOff := range []bool{false, true} {
-		if altOff {
-			os.Setenv("TCELL_ALTSCREEN", "disable")
+	// the third configuration is a value of TCELL_ALTSCREEN that is not "disable": start-up and
+	// shutdown have to read it the same way (a third as many histories)
+	for ci, altEnv := range []string{"", "disable", []string{"Disable", "DISABLE", "enable", "disabled"}[r.Seed%4]} {
+		altOff := altEnv == "disable"
+		nh := nh
+		if ci == 2 {
+			nh = (nh + 2) / 3
+		}
+		if altEnv != "" {
+			os.Setenv("TCELL_ALTSCREEN", altEnv)
 		} else {
 			os.Unsetenv("TCELL_ALTSCREEN")
 		}
@@ -508,6 +524,9 @@ func C04(r *core.Run) {
 					return // every hung shutdown costs 30 s and leaks its goroutines: stop exploring
 				}
 				rg := r.Rand("h", se.name, altOff, hi)
+				if ci == 2 {
+					rg = r.Rand("h", se.name, altEnv, hi)
+				}
 				ops := c04gen(rg)
 				cfg := c04cfg{se: se, altOff: altOff, drainNil: hi%2 == 1, resizeInDrain: hi%3 == 2, readErr: hi%5 == 4, windowCall: hi%7 == 3, windowFini: hi%11 == 5}
 				cat, what := c04exec(cfg, ops, led)
@@ -518,7 +537,7 @@ func C04(r *core.Run) {
 					}
 				}
 				if nt {
-					r.Case(fmt.Sprintf("%s|%v|%d", se.name, altOff, hi))
+					r.Case(fmt.Sprintf("%s|%v|%d", se.name, altEnv, hi))
 				} else {
 					r.Case("")
 				}
@@ -555,8 +574,8 @@ func C04(r *core.Run) {
 						ss = append(ss, o.String())
 					}
 					alt := "altscreen"
-					if altOff {
-						alt = "TCELL_ALTSCREEN=disable"
+					if altEnv != "" {
+						alt = "TCELL_ALTSCREEN=" + altEnv
 					}
 					r.Violate(cat+"|"+c04family(se), fmt.Sprintf("%s (%s, drainNil=%v, resize notification during Drain=%v, first Read fails=%v, modes enabled from another goroutine during the shutdown=%v, Fini from another goroutine during the last Suspend=%v): %s :: history: %s", se.name, alt, cfg.drainNil, cfg.resizeInDrain, cfg.readErr, cfg.windowCall, cfg.windowFini, what, strings.Join(ss, " ")), map[string]any{"entry": se.name, "altscreen_disabled": altOff, "ops": ss})
 				}
